@@ -3,6 +3,7 @@ package vh
 import (
 	"net"
 	"sync"
+	"time"
 )
 
 // FakeListener is a scripted net.Listener: connections are handed out on command.
@@ -11,6 +12,9 @@ type FakeListener struct {
 	closed   chan struct{}
 	once     sync.Once
 	OnAccept func(net.Conn)
+	// LateClose: a blocked Accept learns of Close only that much later (listeners that are closed by way of a
+	// deadline, as Caddy's shared listeners are, behave like this)
+	LateClose time.Duration
 }
 
 func NewFakeListener() *FakeListener {
@@ -36,7 +40,16 @@ func (l *FakeListener) Accept() (net.Conn, error) {
 	}
 }
 
-func (l *FakeListener) Close() error   { l.once.Do(func() { close(l.closed) }); return nil }
+func (l *FakeListener) Close() error {
+	l.once.Do(func() {
+		if l.LateClose > 0 {
+			time.AfterFunc(l.LateClose, func() { close(l.closed) })
+			return
+		}
+		close(l.closed)
+	})
+	return nil
+}
 func (l *FakeListener) Addr() net.Addr { return &net.TCPAddr{IP: net.IPv4(127, 0, 0, 1), Port: 4000} }
 
 // Pending returns the connections that were offered but never accepted.
